@@ -75,6 +75,12 @@ def _gen(rng, tier):
         doc = gen_doc(rng, 2, 3, NAME_POOL_BACKSLASH + ["a", "b"])
         for loc, _ in all_locs(doc):
             yield {"mode": False, "text": rfc6901_spell(loc), "doc": doc, "default": None, "has_default": False}
+    for doc in ({"\\u0041": 2, "A": 1}, {"arr": [{"\\u00e9": 3, "é": 4}]}, {"\\n": 1, "\n": 2}, {"a\\u0062": 1, "ab": 2}):
+        for loc, _ in all_locs(doc):
+            yield {"mode": False, "text": rfc6901_spell(loc), "doc": doc, "default": "DFLT", "has_default": True}
+        for k in list(doc):
+            d2 = {x: v for x, v in doc.items() if x != k}
+            yield {"mode": False, "text": rfc6901_spell([k]), "doc": d2, "default": "DFLT", "has_default": True}
     # syntactically invalid pointers (outside the clause; model correspondence only)
     for text in ["a", "a/b", " /a", "  ", "/a~", "/~2", "~", "/a/~"]:
         yield {"mode": True, "text": text, "doc": {"a": 1, "~": 2, "a~": 3}, "default": None, "has_default": False}
@@ -95,6 +101,11 @@ def _outcome(doc, f):
 
 def impl(case):
     doc = deep(case["doc"])
+    try:
+        # the same text was given before, with the other escape-decoding setting: nothing of that may show
+        JSONPointer(case["text"], unicode_escape=not case["mode"]).exists(doc)
+    except Exception:  # noqa: BLE001
+        pass
     try:
         p = JSONPointer(case["text"], unicode_escape=case["mode"])
     except Exception as e:  # noqa: BLE001
